@@ -325,6 +325,22 @@ func runCase(t *testing.T) func(Case) pbt.Result {
 						return
 					}
 					// a sync reported as successful must have done all of its work: the state equals the fault-free run's
+					var hooks []int
+					for _, hc := range r.s.HookCids(hk0) {
+						hooks = append(hooks, r.pos[hc.String()])
+					}
+					if len(refHooks) > 0 && fmt.Sprint(hooks) != fmt.Sprint(refHooks) && latest0 != head {
+						// (hooks of the whole sync: a retried or failed-over request does not repeat them)
+						full := len(hooks) >= len(refHooks)
+						if full {
+							tail := hooks[len(hooks)-len(refHooks):]
+							full = fmt.Sprint(tail) == fmt.Sprint(refHooks)
+						}
+						if !full {
+							res.Fail = fmt.Sprintf("%s: the sync was reported as successful but handed blocks %v to the hook; the fault-free run reports %v", what, hooks, refHooks)
+							return
+						}
+					}
 					keys := r.s.Keys()
 					for k := range ref.Keys {
 						if !keys[k] {
